@@ -298,6 +298,10 @@ class StepResultTick:
     def ensures_shape(old, tick, init, now_seconds, run_id, result):
         return same_shape(result[0], init)
 
+    def ensures_slot_existed(old, tick, init, now_seconds, run_id, result):
+        # normal return means the reporting worker was in progress (otherwise ValueError)
+        return has_slot(init.workers[tick.step_name], tick.worker_id)
+
     def ensures_inv(old, tick, init, now_seconds, run_id, result):
         # C01: capacity and distinct slots are preserved, for every step
         return wf(result[0]) and Inv1(result[0])
